@@ -558,7 +558,10 @@ pub fn plan(prop: &str, tier: &str) -> Option<Plan> {
                 s.push(e2(prop, "zst", H_GOOD, "mut+bulk2+shape2+pred", &["cursor"], 1, "chk", 45.0));
                 s.push(e2(prop, "zd", H_GOOD, "mut+bulk2+shape2+pred", &["cursor"], 1, "chk", 45.0));
                 s.push(as_set(e2(prop, "zst", H_GOOD, "skey+sshape2+siter", &["cursor"], 1, "chk", 45.0)));
-                s.push(e1(prop, "big", H_GOOD, 0, "pred", &["cursor"], 40, 1, 0, "chk", 45.0));
+                s.push(e1(prop, "big", H_GOOD, 0, "pred+preddrop", &["cursor"], 40, 1, 0, "chk", 45.0));
+                s.push(e1(prop, "tk", H_LOW, 0, "preddrop", &["cursor"], 40, 1, 0, "chk", 45.0));
+                s.push(e1(prop, "u32", H_GOOD, 0, "preddrop", &["cursor"], 72, 1, 0, "chk", 45.0));
+                s.push(as_set(e1(prop, "big", H_GOOD, 0, "skey+sshape+siter", &["cursor"], 40, 1, 0, "chk", 45.0)));
                 bounds = json!({"E1": "all predicates (incl. 2^k subsets of class representatives) at every point of the growth path to N=64 (4 hashers) / 130, and structural predicates after <=1 deviation up to N=18", "E2": "fixpoint u=3"});
             } else {
                 for &hk in &HS4 {
@@ -572,6 +575,10 @@ pub fn plan(prop: &str, tier: &str) -> Option<Plan> {
                 s.push(e2(prop, "zd", H_GOOD, "mut+bulk2+shape2+pred", &["cursor"], 1, "chk", 300.0));
                 s.push(as_set(e2(prop, "zst", H_GOOD, "skey+sshape2+siter", &["cursor"], 1, "chk", 300.0)));
                 s.push(e1(prop, "big", H_GOOD, 0, a, &["cursor"], 33, 2, 1, "chk", 1200.0));
+                for &hk in &HS4 {
+                    s.push(e1(prop, "big", hk, 0, "pred+preddrop", &["cursor"], 130, 1, 0, "chk", 1200.0));
+                    s.push(e1(prop, "tk", hk, 0, "mut1+shape/preddrop", &["cursor"], 40, 2, 0, "chk", 1200.0));
+                }
                 bounds = json!({"E1": "all predicates at every state with <=1 deviation up to N=36", "E2": "fixpoint u=4"});
             }
         }
@@ -910,6 +917,12 @@ pub fn plan(prop: &str, tier: &str) -> Option<Plan> {
                     s.push(single(w, "zst", H_GOOD, 2, 45.0));
                 }
                 s.push(single("map", "u32", H_GOOD, 130, 45.0));
+                for w in ["map", "set"] {
+                    // collections beyond the 4096-element pre-allocation cap: settled (5000) and mid-resize (3600)
+                    let mut x = single(w, "u32", H_GOOD, 2, 45.0);
+                    x.extra.insert("big".into(), "5000,3600".into());
+                    s.push(x);
+                }
                 s.extend(pairs("u32", H_GOOD, 40, 100, 4, 45.0));
                 s.extend(pairs("tk", H_LOW, 24, 60, 2, 45.0));
                 for &hk in &[H_LOW, H_CONST, H_GOOD] {
